@@ -219,7 +219,8 @@ def layout_variants(tier, ev, fnd):
                 if not flags and brace == '{':
                     continue            # `name{` is not a header: the brace would belong to the name
                 heads.append(start + (' ' + flags if flags else '') + brace)
-    texts = ['abi <abi/3.0>,\n\n%s\n  /usr/bin/foo mr,\n\n  profile sub {\n    /bin/x r,\n  }\n}\n' % h for h in heads]
+    # (the body also holds a qualifier rule block, `owner { ... }`: it opens a block but is no profile header)
+    texts = ['abi <abi/3.0>,\n\n%s\n  /usr/bin/foo mr,\n\n  owner {\n    /srv/own r,\n  }\n\n  profile sub {\n    /bin/x r,\n  }\n}\n' % h for h in heads]
 
     def read(line):
         m = re.search(r'flags\s*=\s*\(([^)]*)\)', line)
@@ -236,6 +237,10 @@ def layout_variants(tier, ev, fnd):
                 fnd.report(sig + ' fails', 'builder %s fails on header `%s`: %s' % (mode, h, r.get('panic') or r.get('err')), {'text': t}); continue
             out = r['out']
             lines = [l for l in out.split('\n') if l.rstrip().endswith('{') and not l.lstrip().startswith('#')]
+            rb = [l for l in lines if re.match(r'^\s*owner\b', l)]
+            if rb != ['  owner {']:
+                fnd.report(sig + ' rule-block', 'builder %s on header `%s`: the qualifier rule block `owner {` comes out as %s' % (mode, h, rb), {'text': t, 'out': out}); continue
+            lines = [l for l in lines if l not in rb]
             if len(lines) != 2:
                 fnd.report(sig + ' structure', 'builder %s on header `%s`: %d block headers in the output instead of 2: %s' % (mode, h, len(lines), lines), {'text': t, 'out': out}); continue
             for src, got in ((h, lines[0]), ('  profile sub {', lines[1])):
